@@ -144,7 +144,7 @@ def R3_route_or_error(ctx):
     ctx.check(n_norm >= 1, "edge-loop-has-normal-exit", "no exhaustion exit found for the per-edge loop", a.next.where())
     # iterator is consumed directly (no take/skip/filter/step_by between get_incident_edges and next)
     recv = deep_strip(tm.operand(a.next.args[0], a.next.bb))
-    adapters = [c[1] for c in calls_in(recv) if re.search(r"Iterator::(take|skip|filter|step_by|take_while|skip_while|filter_map|rev|peekable)$", c[1])]
+    adapters = [c[1] for c in calls_in(recv) if re.search(r"Iterator>?::(take|skip|filter|step_by|take_while|skip_while|filter_map|rev|peekable)$", c[1])]
     ctx.check(not adapters, "edge-iterator-unfiltered", "incident edges are filtered/truncated before the loop: %s" % adapters, a.next.where())
     # run_vertex_oriented, A* arm
     rv = F.need(astar.A + "search_algorithm::SearchAlgorithm::run_vertex_oriented")
